@@ -253,44 +253,54 @@ static int kind_of(const char *k)
 
 static TL int eol = '\n';
 
+/* Every getter gets its out-parameter pre-filled with a sentinel.  When the call is refused before any conversion is
+   attempted (no object, no/empty key, key or group not found, key without value) the parameter must come back
+   untouched unless the default is handed out (ECONF_NOKEY with a default): "OUT-CHANGED" is printed otherwise.
+   After a failed conversion the parameter may hold anything (the library stores the partial result); not looked at. */
+#define REFUSED_EARLY(e) ((e) == ECONF_FILE_LIST_IS_NULL || (e) == ECONF_EMPTYKEY || (e) == ECONF_NOKEY || (e) == ECONF_NOGROUP || \
+                          (e) == ECONF_KEY_HAS_NULL_VALUE || (e) == ECONF_ERROR || (e) == ECONF_ARGUMENT_IS_NULL_VALUE)
 static void do_get(econf_file *kf, int kd, const char *g, const char *k, const char *def)
 {
   int has_def = def[0] != '-';
   econf_err e;
+#define DELIVERED (e == ECONF_SUCCESS || (has_def && e == ECONF_NOKEY))
   switch (kd) {
   case 0: {
-    char *v = NULL;
+    static char sentinel[] = "sentinel";
+    char *v = sentinel;
     if (has_def) { char *d = dec(def + 2); e = econf_getStringValueDef(kf, g, k, &v, d); free(d); }
     else e = econf_getStringValue(kf, g, k, &v);
     printf("rc=%d", e);
-    if (e == ECONF_SUCCESS || (has_def && e == ECONF_NOKEY)) { printf(" v="); enc(v); free(v); }
+    if (DELIVERED) { printf(" v="); enc(v == sentinel ? "SENTINEL-LEFT" : v); if (v != sentinel) free(v); }
+    else if (REFUSED_EARLY(e) && v != sentinel) { printf(" OUT-CHANGED"); }
     putchar(eol); break; }
-  case 1: { int32_t v = 0;
+  case 1: { int32_t v = 0x5a5a5a5a;
     e = has_def ? econf_getIntValueDef(kf, g, k, &v, (int32_t) strtoll(def + 2, NULL, 10)) : econf_getIntValue(kf, g, k, &v);
-    printf("rc=%d", e); if (e == 0 || (has_def && e == ECONF_NOKEY)) printf(" z=%" PRId32, v); putchar(eol); break; }
-  case 2: { int64_t v = 0;
+    printf("rc=%d", e); if (DELIVERED) printf(" z=%" PRId32, v); else if (REFUSED_EARLY(e) && v != 0x5a5a5a5a) printf(" OUT-CHANGED"); putchar(eol); break; }
+  case 2: { int64_t v = 0x5a5a5a5a5a5a5a5aLL;
     e = has_def ? econf_getInt64ValueDef(kf, g, k, &v, (int64_t) strtoll(def + 2, NULL, 10)) : econf_getInt64Value(kf, g, k, &v);
-    printf("rc=%d", e); if (e == 0 || (has_def && e == ECONF_NOKEY)) printf(" z=%" PRId64, v); putchar(eol); break; }
-  case 3: { uint32_t v = 0;
+    printf("rc=%d", e); if (DELIVERED) printf(" z=%" PRId64, v); else if (REFUSED_EARLY(e) && v != 0x5a5a5a5a5a5a5a5aLL) printf(" OUT-CHANGED"); putchar(eol); break; }
+  case 3: { uint32_t v = 0x5a5a5a5au;
     e = has_def ? econf_getUIntValueDef(kf, g, k, &v, (uint32_t) strtoull(def + 2, NULL, 10)) : econf_getUIntValue(kf, g, k, &v);
-    printf("rc=%d", e); if (e == 0 || (has_def && e == ECONF_NOKEY)) printf(" z=%" PRIu32, v); putchar(eol); break; }
-  case 4: { uint64_t v = 0;
+    printf("rc=%d", e); if (DELIVERED) printf(" z=%" PRIu32, v); else if (REFUSED_EARLY(e) && v != 0x5a5a5a5au) printf(" OUT-CHANGED"); putchar(eol); break; }
+  case 4: { uint64_t v = 0x5a5a5a5a5a5a5a5aULL;
     e = has_def ? econf_getUInt64ValueDef(kf, g, k, &v, (uint64_t) strtoull(def + 2, NULL, 10)) : econf_getUInt64Value(kf, g, k, &v);
-    printf("rc=%d", e); if (e == 0 || (has_def && e == ECONF_NOKEY)) printf(" z=%" PRIu64, v); putchar(eol); break; }
-  case 5: { bool v = false;
-    e = has_def ? econf_getBoolValueDef(kf, g, k, &v, def[2] == '1') : econf_getBoolValue(kf, g, k, &v);
-    printf("rc=%d", e); if (e == 0 || (has_def && e == ECONF_NOKEY)) printf(" b=%d", v ? 1 : 0); putchar(eol); break; }
-  case 6: { float v = 0; uint32_t bits;
+    printf("rc=%d", e); if (DELIVERED) printf(" z=%" PRIu64, v); else if (REFUSED_EARLY(e) && v != 0x5a5a5a5a5a5a5a5aULL) printf(" OUT-CHANGED"); putchar(eol); break; }
+  case 5: { unsigned char raw = 0x5a; bool *vp = (bool *) &raw;
+    e = has_def ? econf_getBoolValueDef(kf, g, k, vp, def[2] == '1') : econf_getBoolValue(kf, g, k, vp);
+    printf("rc=%d", e); if (DELIVERED) printf(" b=%d", raw ? 1 : 0); else if (REFUSED_EARLY(e) && raw != 0x5a) printf(" OUT-CHANGED"); putchar(eol); break; }
+  case 6: { uint32_t bits = 0x5a5a5a5au; float v; memcpy(&v, &bits, 4);
     if (has_def) { char *d = dec(def + 2); float dv = strtof(d, NULL); free(d); e = econf_getFloatValueDef(kf, g, k, &v, dv); }
     else e = econf_getFloatValue(kf, g, k, &v);
     memcpy(&bits, &v, 4);
-    printf("rc=%d", e); if (e == 0 || (has_def && e == ECONF_NOKEY)) printf(" bits=%" PRIu32, bits); putchar(eol); break; }
-  case 7: { double v = 0; uint64_t bits;
+    printf("rc=%d", e); if (DELIVERED) printf(" bits=%" PRIu32, bits); else if (REFUSED_EARLY(e) && bits != 0x5a5a5a5au) printf(" OUT-CHANGED"); putchar(eol); break; }
+  case 7: { uint64_t bits = 0x5a5a5a5a5a5a5a5aULL; double v; memcpy(&v, &bits, 8);
     if (has_def) { char *d = dec(def + 2); double dv = strtod(d, NULL); free(d); e = econf_getDoubleValueDef(kf, g, k, &v, dv); }
     else e = econf_getDoubleValue(kf, g, k, &v);
     memcpy(&bits, &v, 8);
-    printf("rc=%d", e); if (e == 0 || (has_def && e == ECONF_NOKEY)) printf(" bits=%" PRIu64, bits); putchar(eol); break; }
+    printf("rc=%d", e); if (DELIVERED) printf(" bits=%" PRIu64, bits); else if (REFUSED_EARLY(e) && bits != 0x5a5a5a5a5a5a5a5aULL) printf(" OUT-CHANGED"); putchar(eol); break; }
   }
+#undef DELIVERED
 }
 
 static void do_ext(econf_file *kf, const char *g, const char *k)
